@@ -15,7 +15,9 @@ package main
 //
 // <impl>: llq = LinkedListQueue, chq = ChannelQueue (Offer/Poll only: its Put/Take block while the wrapper's lock is held),
 // ring<K> = the harness' own bounded (capacity K), deliberately non-thread-safe ring buffer that counts overlapping
-// entries (`viol overlap`) and reports full (`full`) instead of waiting; stress producers retry on full.
+// entries (`viol overlap`) and reports full (`full`) instead of waiting; stress producers retry on full,
+// cc-<impl> = a ConcurrentQueue/Stack wrapping a ConcurrentQueue/Stack wrapping <impl>: calls are issued through BOTH
+// handles (threads / call indices alternate) and must all linearize over the one underlying object.
 
 import (
 	"fmt"
@@ -37,6 +39,7 @@ type c08Obj struct {
 	push       func(int) error
 	pop        func() (int, error)
 	ring       *c08Ring // non-nil when the wrapped object is the harness' own bounded ring buffer
+	alt        *c08Obj  // nested wrappers ("cc-…"): the INNER wrapper's handle
 }
 
 // c08Ring is a second wrapped implementation: a BOUNDED, deliberately NOT goroutine-safe deque of ints (the kind
@@ -117,6 +120,7 @@ func (r *c08Ring) Pop() (int, error) {
 
 // c08RingCap parses "ring<K>"; 0 = not a ring (unbounded wrapped object).
 func c08RingCap(impl string) int {
+	impl = strings.TrimPrefix(impl, "cc-")
 	if strings.HasPrefix(impl, "ring") {
 		k, _ := strconv.Atoi(impl[4:])
 		return k
@@ -124,28 +128,58 @@ func c08RingCap(impl string) int {
 	return 0
 }
 
+// c08Base strips the "cc-" prefix (a wrapper wrapping a wrapper) from an implementation name.
+func c08Base(impl string) string { return strings.TrimPrefix(impl, "cc-") }
+
+// h returns the handle a thread / call index uses: with a nested wrapper ("cc-…") even indices call the OUTER
+// ConcurrentQueue/Stack, odd ones the INNER one it wraps; otherwise there is only one handle.
+func (o *c08Obj) h(i int) *c08Obj {
+	if o.alt != nil && i%2 == 1 {
+		return o.alt
+	}
+	return o
+}
+
 func c08New(kind, impl string, capacity int) *c08Obj {
-	if k := c08RingCap(impl); k > 0 {
-		ring := newC08Ring(k)
-		if kind == "q" {
-			q := fpgo.NewConcurrentQueue[int](fpgo.Queue[int](ring))
-			return &c08Obj{put: q.Put, offer: q.Offer, take: q.Take, poll: q.Poll, ring: ring}
-		}
-		st := fpgo.NewConcurrentStack[int](fpgo.Stack[int](ring))
-		return &c08Obj{push: st.Push, pop: st.Pop, ring: ring}
+	nested := strings.HasPrefix(impl, "cc-")
+	base := c08Base(impl)
+	var ring *c08Ring
+	if k := c08RingCap(base); k > 0 {
+		ring = newC08Ring(k)
 	}
 	if kind == "q" {
-		var inner fpgo.Queue[int]
-		if impl == "chq" {
-			inner = fpgo.NewChannelQueue[int](capacity)
-		} else {
-			inner = fpgo.NewLinkedListQueue[int]()
+		var raw fpgo.Queue[int]
+		switch {
+		case ring != nil:
+			raw = ring
+		case base == "chq":
+			raw = fpgo.NewChannelQueue[int](capacity)
+		default:
+			raw = fpgo.NewLinkedListQueue[int]()
 		}
-		q := fpgo.NewConcurrentQueue[int](inner)
-		return &c08Obj{put: q.Put, offer: q.Offer, take: q.Take, poll: q.Poll}
+		q := fpgo.NewConcurrentQueue[int](raw)
+		o := &c08Obj{put: q.Put, offer: q.Offer, take: q.Take, poll: q.Poll, ring: ring}
+		if nested {
+			// a ConcurrentQueue is itself a Queue: wrap it once more; calls arrive through BOTH handles and must
+			// all linearize over the one underlying deque
+			outer := fpgo.NewConcurrentQueue[int](fpgo.Queue[int](q))
+			return &c08Obj{put: outer.Put, offer: outer.Offer, take: outer.Take, poll: outer.Poll, ring: ring, alt: o}
+		}
+		return o
 	}
-	s := fpgo.NewConcurrentStack[int](fpgo.Stack[int](fpgo.NewLinkedListQueue[int]()))
-	return &c08Obj{push: s.Push, pop: s.Pop}
+	var raw fpgo.Stack[int]
+	if ring != nil {
+		raw = ring
+	} else {
+		raw = fpgo.NewLinkedListQueue[int]()
+	}
+	st := fpgo.NewConcurrentStack[int](raw)
+	o := &c08Obj{push: st.Push, pop: st.Pop, ring: ring}
+	if nested {
+		outer := fpgo.NewConcurrentStack[int](fpgo.Stack[int](st))
+		return &c08Obj{push: outer.Push, pop: outer.Pop, ring: ring, alt: o}
+	}
+	return o
 }
 
 func c08ShowErr(err error) string {
@@ -262,11 +296,11 @@ func c08Stress(kind, impl string, p, c, n int, seed int64) string {
 					var err error
 					switch {
 					case kind == "s":
-						err = o.push(v)
-					case impl == "chq" || i%2 == 0:
-						err = o.offer(v)
+						err = o.h(t).push(v)
+					case c08Base(impl) == "chq" || i%2 == 0:
+						err = o.h(t).offer(v)
 					default:
-						err = o.put(v)
+						err = o.h(t).put(v)
 					}
 					res := atomic.AddInt64(&clock, 1)
 					if err == nil {
@@ -305,11 +339,11 @@ func c08Stress(kind, impl string, p, c, n int, seed int64) string {
 				var err error
 				switch {
 				case kind == "s":
-					v, err = o.pop()
-				case impl == "chq" || i%2 == 0:
-					v, err = o.poll()
+					v, err = o.h(t).pop()
+				case c08Base(impl) == "chq" || i%2 == 0:
+					v, err = o.h(t).poll()
 				default:
-					v, err = o.take()
+					v, err = o.h(t).take()
 				}
 				res := atomic.AddInt64(&clock, 1)
 				if err == nil {
@@ -490,22 +524,22 @@ func c08Hist(kind, impl string, t, k int, seed int64) string {
 				switch {
 				case kind == "s" && ins:
 					op.name = "push"
-					op.ret = c08ShowErr(o.push(op.arg))
+					op.ret = c08ShowErr(o.h(th).push(op.arg))
 				case kind == "s":
 					op.name = "pop"
-					op.ret = c08ShowVal(o.pop())
-				case ins && (impl == "chq" || rng.Intn(2) == 0):
+					op.ret = c08ShowVal(o.h(th).pop())
+				case ins && (c08Base(impl) == "chq" || rng.Intn(2) == 0):
 					op.name = "offer"
-					op.ret = c08ShowErr(o.offer(op.arg))
+					op.ret = c08ShowErr(o.h(th).offer(op.arg))
 				case ins:
 					op.name = "put"
-					op.ret = c08ShowErr(o.put(op.arg))
-				case impl == "chq" || rng.Intn(2) == 0:
+					op.ret = c08ShowErr(o.h(th).put(op.arg))
+				case c08Base(impl) == "chq" || rng.Intn(2) == 0:
 					op.name = "poll"
-					op.ret = c08ShowVal(o.poll())
+					op.ret = c08ShowVal(o.h(th).poll())
 				default:
 					op.name = "take"
-					op.ret = c08ShowVal(o.take())
+					op.ret = c08ShowVal(o.h(th).take())
 				}
 				op.res = atomic.AddInt64(&clock, 1)
 				all[th] = append(all[th], op)
@@ -555,7 +589,7 @@ func c08Run(line string) string {
 		for _, t := range strings.Split(body, ";") {
 			t = strings.TrimSpace(t)
 			if t != "" {
-				outs = append(outs, c08Tok(o, t))
+				outs = append(outs, c08Tok(o.h(len(outs)), t)) // nested wrappers: calls alternate between the two handles
 			}
 		}
 		if o.overlaps() != 0 {
@@ -614,15 +648,19 @@ func c08Gen(tier string, rng *rand.Rand, emit func(string)) map[string]interface
 	exh("seq q ring2", []string{"put", "offer", "take", "poll"}, ql)
 	exh("seq s ring2", []string{"push", "pop"}, sl)
 	exh("seq q ring1", []string{"put", "poll"}, cl)
+	exh("seq q cc-llq", []string{"put", "offer", "take", "poll"}, ql)
+	exh("seq s cc-llq", []string{"push", "pop"}, sl)
+	exh("seq q cc-ring2", []string{"offer", "poll"}, cl)
 	nRand := 150
 	if thorough {
 		nRand = 1500
 	}
 	for i := 0; i < nRand; i++ {
 		n := 1 + rng.Intn(60)
-		heads := []string{"seq q llq", "seq s llq", "seq q chq", "seq q ring3", "seq s ring3"}
-		alph := [][]string{{"put", "offer", "take", "poll"}, {"push", "pop"}, {"offer", "poll"}, {"put", "offer", "take", "poll"}, {"push", "pop"}}
-		k := rng.Intn(5)
+		heads := []string{"seq q llq", "seq s llq", "seq q chq", "seq q ring3", "seq s ring3", "seq q cc-llq", "seq s cc-ring3"}
+		alph := [][]string{{"put", "offer", "take", "poll"}, {"push", "pop"}, {"offer", "poll"}, {"put", "offer", "take", "poll"}, {"push", "pop"},
+			{"put", "offer", "take", "poll"}, {"push", "pop"}}
+		k := rng.Intn(7)
 		ops := make([]string, n)
 		for j := range ops {
 			a := alph[k]
@@ -665,6 +703,20 @@ func c08Gen(tier string, rng *rand.Rand, emit func(string)) map[string]interface
 					ringKinds = []string{"q", "s"}
 				}
 			}
+			// a wrapper wrapping a wrapper: producers/consumers are split across the OUTER and the INNER handle
+			nestKinds := []string{"q cc-llq", "s cc-llq", "q cc-ring2", "s cc-ring2", "q cc-chq"}
+			if !thorough {
+				i0 := (cf.p*3 + cf.c) % 5
+				nestKinds = []string{nestKinds[i0], nestKinds[(i0+2)%5]}
+			}
+			for _, nk := range nestKinds {
+				nn := n/cf.p + 1 + rng.Intn(50)
+				if strings.Contains(nk, "ring") {
+					nn = (n/2)/cf.p + 1 + rng.Intn(20)
+				}
+				emit(fmt.Sprintf("stress %s p=%d c=%d n=%d seed=%d", nk, cf.p, cf.c, nn, rng.Intn(1000000)))
+				stressCases++
+			}
 			for _, rk := range ringKinds {
 				emit(fmt.Sprintf("stress %s ring%d p=%d c=%d n=%d seed=%d", rk, 1+rng.Intn(3), cf.p, cf.c, (n/2)/cf.p+1+rng.Intn(20), rng.Intn(1000000)))
 				stressCases++
@@ -679,7 +731,7 @@ func c08Gen(tier string, rng *rand.Rand, emit func(string)) map[string]interface
 	for i := 0; i < nh; i++ {
 		t := 2 + rng.Intn(3)
 		k := 1 + rng.Intn(12/t)
-		ki := []string{"q llq", "s llq", "q chq", "q ring1", "q ring2", "s ring2"}[rng.Intn(6)]
+		ki := []string{"q llq", "s llq", "q chq", "q ring1", "q ring2", "s ring2", "q cc-llq", "s cc-llq", "q cc-ring1"}[rng.Intn(9)]
 		emit(fmt.Sprintf("hist %s t=%d k=%d seed=%d", ki, t, k, rng.Intn(1000000)))
 		histCases++
 	}
